@@ -4,7 +4,7 @@ import itertools
 
 ID = "C09"
 THEOREM_MODULE = "SimVerif.Props.C09"
-THEOREM_MODULES = ["SimVerif.Props.C09", "SimVerif.Tie.Track", "SimVerif.Tie.StoreCmd", "SimVerif.Tie.StoreMap"]
+THEOREM_MODULES = ["SimVerif.Props.C09", "SimVerif.Tie.Track", "SimVerif.Tie.StoreCmd", "SimVerif.Tie.StoreMap", "SimVerif.Tie.FanOut"]
 NONTRIVIAL_FLAGS = {"dup", "add-missing", "fetch-missing", "fetch-hit", "merge-CB", "merge-NOTFOUND", "merge-SAME", "remove-src", "lookup", "usable", "fails", "clear"}
 RULE = ("operation sequences over a 5-id / 3-class alphabet on stores with 1..5 shards: add_track (externally built tracks, duplicates), add (existing and missing ids, empty observation, failing update/optimise), "
         "fetch_tracks (existing, missing, repeated ids), merge_owned / merge_external / merge_external_noblock (missing destination or source, same id, failing attribute merge or optimise, remove flag), lookup, find_usable, clear, shard_stats; "
